@@ -597,6 +597,35 @@ def run(prog, rep, tier):
         if not openers:
             rep.violation(R53, inst + "|used", "%s: the selected path does not reach any open call" % path)
 
+    # ------------------------------------------------------------ R5.10 the tar member is chosen by its whole name
+    R510 = rep.rule("R5.10", "the archive member to extract is selected by equality of the whole member path")
+    dn = prog.body("s4lib::readers::filedecompressor::decompress_to_ntf")
+    loose = []
+    eqs = 0
+    for c in dn.live_calls():
+        last = (c.o or c.d).split("::")[-1]
+        if last in ("ends_with", "starts_with", "contains", "find", "rfind", "eq", "ne", "strip_prefix", "strip_suffix"):
+            argsrc = set()
+            for a in c.args[:2]:
+                if a[0] == "k":
+                    continue
+                for x in dn.origins(a, through_calls=("::deref", "::as_str", "::as_ref", "::to_string_lossy", "::to_string", "::borrow", "::as_os_str")):
+                    if x[0] == "call":
+                        argsrc.add(x[2].split("::")[-1])
+                    elif x[0] in ("arg", "local") and dn.local_name(x[1]):
+                        argsrc.add(dn.local_name(x[1]))
+            if "path" in argsrc or "subfpath" in argsrc or "subpath" in argsrc:
+                if last in ("eq", "ne"):
+                    eqs += 1
+                else:
+                    loose.append((last, c.line, sorted(argsrc)))
+    rep.examined(R510, dn.path + "|member-selection", sample={"equality_tests_on_member_path": eqs, "partial_matches": loose})
+    if loose:
+        rep.violation(R510, dn.path + "|member-selection", "decompress_to_ntf selects the tar member with %s() (line %d) instead of equality of the whole path; an earlier member whose path merely ends with the wanted name "
+                      "(archive/System.evtx before System.evtx) is extracted instead: its records print twice, the wanted member's never" % (loose[0][0], loose[0][1]))
+    elif eqs == 0:
+        raise CheckerError("decompress_to_ntf: member-path comparison not recognised")
+
     # ------------------------------------------------------------ R5.9 lift of C03 R3.8
     import contextlib as _cl9, io as _io9
     import c03 as _c03l
